@@ -58,6 +58,30 @@ type session struct {
 	// predicates, folds) lives on canonical ids only: whatever a writer's spelling, the item, its seed, its
 	// events and its List entry are `a`'s.
 	Icpt string `json:"id_interceptor,omitempty"`
+	// JoinIn: the subscription happens INSIDE the first write after it: Ops[NBefore] is a re-entrant write
+	// (`addc/updc/upsc:i:v:w`) that is started before Pull; its check callback upserts the item to w (another
+	// writer overtaking it) and then parks - the write sits between its read and its write lock - until the
+	// harness has called Pull; then it goes on to its re-check, saves and announces.  The subscriber's seed
+	// contains the overtaking write; the parked write's change, which is stamped and published after the
+	// subscription, must reach the subscriber like any other (it is judged by include from the value the seed
+	// carried).  If the write fails before its callback runs, the subscription simply follows it.
+	JoinIn bool `json:"join_in,omitempty"`
+}
+
+// joinInRan: does the callback of the JoinIn write run (the write's first read succeeds)?  Decided on the
+// plain-map spec; `pre` is the state before the write.
+func (s session) joinInner(pre shadow) (inner string, ran bool) {
+	if !s.JoinIn || len(s.Ops) <= s.NBefore {
+		return "", false
+	}
+	op := canonOp(s.Icpt, s.Ops[s.NBefore])
+	cp := shadow{}
+	for k, v := range pre {
+		cp[k] = v
+	}
+	_, evs := cp.apply(op)
+	q := strings.Split(op, ":")
+	return "ups:" + q[1] + ":" + q[3], len(evs) > 0
 }
 
 // canonOp is the write on the canonical id: what the plain-map spec is given.
@@ -192,7 +216,11 @@ var stuckSeen = 0
 
 func tooManyStuck(own int) bool { return own > 4 || (own > 0 && stuckSeen > 5) }
 
-func applyOp(c *resource.Collection, op string) error {
+func applyOp(c *resource.Collection, op string) error { return applyOpHook(c, op, nil) }
+
+// applyOpHook: `hook` (if not nil) is called inside the check callback of a re-entrant Add/Update, right after
+// the callback's own write - i.e. while the outer write sits between its read and its write lock, no lock held.
+func applyOpHook(c *resource.Collection, op string, hook func()) error {
 	q := strings.Split(op, ":")
 	var err error
 	switch q[0] {
@@ -232,6 +260,9 @@ func applyOp(c *resource.Collection, op string) error {
 		}
 		wopts = append(wopts, resource.WithExpectedCheck(func(proto.Message) error {
 			_, _ = c.Update(q[1], msgOf(q[3]), resource.WithCreateIfAbsent())
+			if hook != nil {
+				hook()
+			}
 			return nil
 		}))
 		_, err = c.Update(q[1], msgOf(q[2]), wopts...)
@@ -343,6 +374,39 @@ func (s session) run() (obs []burstObs) {
 		opts = append(opts, resource.WithUpdatesOnly(true))
 	}
 	armed.Store(s.RaceFirst)
+	resume := make(chan struct{})
+	if s.JoinIn && len(s.Ops) > s.NBefore {
+		// the write inside which the subscription happens: parked in its callback after the overtaking write
+		joinOp := s.Ops[s.NBefore]
+		parked := make(chan struct{})
+		raceStarted = true
+		go func() {
+			defer close(raceDone)
+			panicked, msg := lib.Catch(func() {
+				once := false
+				err := applyOpHook(c, joinOp, func() {
+					if !once {
+						once = true
+						close(parked)
+						<-resume
+					}
+				})
+				if err != nil {
+					raceRes = "fail"
+				} else {
+					raceRes = "ok"
+				}
+			})
+			if panicked {
+				racePanic = msg
+			}
+		}()
+		select {
+		case <-parked:
+		case <-raceDone: // failed before its callback ran
+		case <-time.After(fenceTimeout):
+		}
+	}
 	ch := c.Pull(ctx, opts...)
 	armed.Store(false)
 
@@ -408,6 +472,9 @@ func (s session) run() (obs []burstObs) {
 			panicked, msg := lib.Catch(func() {
 				for oi, op := range burst {
 					if raced && oi == 0 {
+						if s.JoinIn {
+							close(resume)
+						}
 						<-raceDone
 						if racePanic != "" {
 							panic(racePanic)
@@ -670,6 +737,19 @@ func (s session) monitor(m sink, obs []burstObs) {
 	for _, op := range s.Ops[:s.NBefore] {
 		sh.apply(canonOp(s.Icpt, op))
 	}
+	// JoinIn: the subscription sees the overtaking write of the parked write's callback; the parked write itself
+	// is judged from the state before it
+	var shPre shadow
+	if s.JoinIn {
+		shPre = shadow{}
+		for k, v := range sh {
+			shPre[k] = v
+		}
+		if inner, ran := s.joinInner(sh); ran {
+			sh.apply(inner)
+			m.Count("subscription inside a write's callback, after an overtaking write (JoinIn)")
+		}
+	}
 	pre := "C08/Pull/bp=" + bpName(s.BP) + "/"
 	if s.Icpt != "" {
 		m.Count("collection with an id interceptor")
@@ -685,7 +765,7 @@ func (s session) monitor(m sink, obs []burstObs) {
 	}
 	nontrivial := !s.Pred.Nil
 	for bi, b := range obs {
-		if b.Raced {
+		if b.Raced && !s.JoinIn {
 			m.Count("first write started by the predicate during Pull's seed (RaceFirst)")
 		}
 		if b.Panicked != "" {
@@ -707,7 +787,19 @@ func (s session) monitor(m sink, obs []burstObs) {
 			if op != canonOp(s.Icpt, op) {
 				m.Count("write under a non-canonical spelling of the id: " + strings.Split(op, ":")[0])
 			}
-			ok, pubs := sh.apply(canonOp(s.Icpt, op))
+			var ok bool
+			var pubs []pubEvent
+			if s.JoinIn && bi == 0 && oi == 0 && len(b.Ops) > 1 {
+				// the parked write as a whole from the state before it; its callback's write was published before
+				// the subscription, the rest after
+				ok, pubs = shPre.apply(canonOp(s.Icpt, op))
+				if len(pubs) > 0 {
+					pubs = pubs[1:]
+				}
+				sh = shPre
+			} else {
+				ok, pubs = sh.apply(canonOp(s.Icpt, op))
+			}
 			want := "ok"
 			if !ok {
 				want = "fail"
@@ -766,6 +858,9 @@ func (s session) monitor(m sink, obs []burstObs) {
 			sh0 := shadow{}
 			for _, op := range s.Ops[:s.NBefore] {
 				sh0.apply(canonOp(s.Icpt, op))
+			}
+			if inner, ran := s.joinInner(sh0); ran {
+				sh0.apply(inner)
 			}
 			want := sh0.filtered(s.Pred, s.Mask)
 			if s.UpdatesOnly {
@@ -988,8 +1083,37 @@ func genSession(r *rand.Rand, bp bool, small bool) session {
 		// a writer as concurrent with the subscription as can be: see session.RaceFirst
 		s.RaceFirst = true
 	}
+	if !s.RaceFirst && r.Intn(12) == 0 {
+		// the subscription happens inside the first write after it (see session.JoinIn): that write is a
+		// re-entrant one on an id of the history; two times in three its callback's overtaking write stores
+		// what the write read (so its by-value re-check passes and it announces a change stamped after the
+		// subscription), else anything
+		pre := shadow{}
+		for _, op := range s.Ops[:nb] {
+			pre.apply(canonOp(s.Icpt, op))
+		}
+		id := ids[r.Intn(len(ids))]
+		v := vals[r.Intn(len(vals))]
+		w := vals[r.Intn(len(vals))]
+		kind := []string{"updc", "upsc", "upsc", "addc"}[r.Intn(4)]
+		if cur, present := pre[id]; r.Intn(3) != 0 {
+			if present {
+				w = cur
+				if kind == "addc" {
+					kind = "updc"
+				}
+			} else {
+				w, kind = emptyOf(v), "upsc"
+			}
+		}
+		if s.Icpt != "" && r.Intn(2) == 0 {
+			id = strings.ToUpper(id)
+		}
+		s.JoinIn = true
+		s.Ops[nb] = kind + ":" + id + ":" + v + ":" + w
+	}
 	if bp {
-		if !s.RaceFirst {
+		if !s.RaceFirst && !s.JoinIn {
 			s.Bursts = append(s.Bursts, 0)
 		}
 		for i := 0; i < na; i++ {
@@ -997,7 +1121,7 @@ func genSession(r *rand.Rand, bp bool, small bool) session {
 		}
 	} else {
 		left := na
-		if s.RaceFirst {
+		if s.RaceFirst || s.JoinIn {
 			s.Bursts = append(s.Bursts, 1)
 			left--
 		} else if r.Intn(2) == 0 {
@@ -1016,6 +1140,36 @@ func genSession(r *rand.Rand, bp bool, small bool) session {
 }
 
 // --- tie ----------------------------------------------------------------------------------------------
+
+// decomposed: the session the model is asked about.  A JoinIn session is, on the code as it is, the session in
+// which the parked write's callback write happens BEFORE the subscription as a write of its own and the parked
+// write after it as a plain write: an Update when its re-check passes (the item is stored then), a write
+// without any event when it aborts.
+func (s session) decomposed() session {
+	if !s.JoinIn || len(s.Ops) <= s.NBefore {
+		return s
+	}
+	pre := shadow{}
+	for _, op := range s.Ops[:s.NBefore] {
+		pre.apply(canonOp(s.Icpt, op))
+	}
+	inner, ran := s.joinInner(pre)
+	if !ran {
+		return s // fails at its first read: nothing is published
+	}
+	op := s.Ops[s.NBefore]
+	q := strings.Split(op, ":")
+	ok, _ := pre.apply(canonOp(s.Icpt, op))
+	outer := "dela:zz" // no event, no failure: the aborted write
+	if ok {
+		outer = "upd:" + q[1] + ":" + q[2]
+	}
+	d := s
+	d.JoinIn = false
+	d.Ops = append(append(append([]string{}, s.Ops[:s.NBefore]...), inner, outer), s.Ops[s.NBefore+1:]...)
+	d.NBefore = s.NBefore + 1
+	return d
+}
 
 // driverLines: what to ask the model for this session.
 func (s session) driverLines() []string {
@@ -1177,7 +1331,7 @@ func evalSession(res *lib.Result, s session, drv *lib.Driver, tieBP, tieLossy *l
 	if drv == nil {
 		return
 	}
-	lines := s.driverLines()
+	lines := s.decomposed().driverLines()
 	ans, err := drv.Batch(lines)
 	if err != nil {
 		if s.BP {
